@@ -1113,3 +1113,167 @@ def add_lets(rng, prog, sig, prob=0.7):
     if changed:
         prog["features"] = sorted(set(prog.get("features", [])) | {"let", "alias-let-template"})
     return changed
+
+
+# ------------------------------------------------------------------ wildcards in negated atoms (C01)
+# `!r(X, _)` reads "there is no fact r(X, anything)": the wildcard is never bound, it is read
+# existentially when the negated atom is evaluated (engine/premise.go premiseNegAtom: the atom
+# fails iff some stored fact UNIFIES with it). Since fix F3a (RewriteClause no longer drops such
+# an atom) the shape is part of the accepted language; class Gen above never writes it (its
+# avoidance of the F3a trigger is kept there so that the streams of the other checks stay as they
+# are). The model needs nothing new: the encoders give every `_` its own fresh variable (cq_term)
+# and Solve.v `step` on `PNeg` fails iff some stored fact unifies, so an unbound variable is read
+# existentially, repeated wildcards independently. Add-only: nothing above this line uses these.
+def bound_before(c):
+    """bound[j] (j = 0..len(body)) = the variables that have a value before body position j:
+    arguments of earlier positive atoms, and the variable side of an earlier equality whose
+    other side is a constant, a bound variable or a function of bound variables."""
+    def tvars(t):
+        acc = set()
+        term_vars(t, acc)
+        return acc
+    out, b = [set()], set()
+    for p in c["body"]:
+        if p[0] == "atom":
+            for t in p[1]["args"]:
+                if t[0] == "var":
+                    b.add(t[1])
+        elif p[0] == "eq":
+            for x, y in ((p[1], p[2]), (p[2], p[1])):
+                if x[0] == "var" and tvars(y) <= b:
+                    b.add(x[1])
+        out.append(set(b))
+    return out
+
+
+WILDNEG_SHAPES = ["mixed", "mixed", "mixed", "one-wild", "one-wild", "repeat", "repeat", "all-wild"]
+
+
+def wild_neg_atom(rng, c, p, cols, bb, scalar):
+    """One negated atom over predicate p (column types cols) with at least one wildcard for
+    clause c. Other columns: a body variable of the column's type that is bound at the end of
+    the body (bb = bound_before(c), types from the caller's `ty`), or a scalar constant.
+    Returns (atom, shape, variables used)."""
+    ty = cols["ty"]
+    shape = rng.choice(WILDNEG_SHAPES)
+    sig = cols["sig"]
+    n = len(sig)
+    have = {t: sorted(v for v in bb[-1] if ty.get(v) == t) for t in set(sig)}
+    args = [None] * n
+    if shape == "all-wild" or n == 1:
+        shape = "all-wild"
+        args = [["wild"] for _ in range(n)]
+    elif shape == "repeat":
+        # one bound variable in two (or more) columns of its type, wildcards elsewhere: !r(X, _, X)
+        ts = [t for t in set(sig) if sig.count(t) >= 2 and have[t] and n >= 3]
+        if not ts:
+            shape = "mixed"
+        else:
+            t = rng.choice(sorted(ts))
+            v = rng.choice(have[t])
+            idx = [i for i in range(n) if sig[i] == t]
+            keep = rng.sample(idx, 2)
+            args = [var(v) if i in keep else ["wild"] for i in range(n)]
+    if shape == "one-wild":
+        w = rng.randrange(n)
+        for i in range(n):
+            if i == w:
+                args[i] = ["wild"]
+            elif have[sig[i]] and rng.random() < 0.8:
+                args[i] = var(rng.choice(have[sig[i]]))
+            elif sig[i] in ("N", "A"):
+                args[i] = cst(scalar(sig[i]))
+            else:
+                args[i] = ["wild"]
+    if shape == "mixed":
+        for i in range(n):
+            x = rng.random()
+            if x < 0.45 or (sig[i] not in ("N", "A") and not have[sig[i]]):
+                args[i] = ["wild"]
+            elif have[sig[i]] and x < 0.88:
+                args[i] = var(rng.choice(have[sig[i]]))
+            elif sig[i] in ("N", "A"):
+                args[i] = cst(scalar(sig[i]))
+            else:
+                args[i] = ["wild"]
+        if not any(a == ["wild"] for a in args):
+            args[rng.randrange(n)] = ["wild"]
+    used = set(a[1] for a in args if a[0] == "var")
+    return atom(p, *args), shape, used
+
+
+def add_wild_neg(rng, prog, sig, prob=0.4):
+    """Template of the C01 wildcard-negation stream: clauses of a generated program get
+    wildcards inside negated atoms -
+    (a) arguments of negated atoms that are already there are replaced by `_`,
+    (b) new negated atoms over predicates of strictly lower layers / extensional predicates are
+        inserted: `!r(X, _)`, `!r(_, X)`, `!r(_, _)`, `!r(X, _, X)`, constants mixed in; every
+        variable used is bound by the premises before the chosen body position (the generator's
+        safety discipline: the analysis would otherwise move the atom, which is C04's subject),
+        the position is anywhere from there to the end of the body (also position 0 for atoms
+        without variables, also between the atoms of a recursive clause: the delta positions shift).
+    Layers, heads and every other premise stay as they are, so the program remains stratified and
+    safe; negation only removes solutions, so termination bounds are kept. The result is inside
+    the modelled fragment (compared with the Coq model like every other program).
+    Returns statistics ({} if nothing was changed)."""
+    layer_of = {p: i for i, l in enumerate(prog["layers"]) for p in l}
+    st = {}
+
+    def cnt(k):
+        st[k] = st.get(k, 0) + 1
+
+    def scalar(t):
+        if t == "N":
+            return num(rng.choice([0, 1, 2, 3, 4, 5]))
+        return name(rng.choice(NAMES))
+    for c in prog["clauses"]:
+        if not c["body"] or rng.random() > prob:
+            continue
+        hl = layer_of.get(c["head"]["p"])
+        if hl is None:
+            continue
+        touched = False
+        # (a) wildcards into the negated atoms that are there
+        for p in c["body"]:
+            if p[0] == "neg" and p[1]["args"] and rng.random() < 0.5:
+                n = len(p[1]["args"])
+                idx = [i for i in range(n) if rng.random() < 0.4] or [rng.randrange(n)]
+                for i in idx:
+                    if p[1]["args"][i] != ["wild"]:
+                        p[1]["args"][i] = ["wild"]
+                cnt("existing_atom_wildcarded")
+                cnt("existing:%s" % ("all-wild" if all(a == ["wild"] for a in p[1]["args"]) else "some-wild"))
+                touched = True
+        # (b) new negated atoms
+        lower = sorted(q for q in sig if layer_of.get(q, -1) < hl and len(sig[q]) >= 1)
+        if lower and (not touched or rng.random() < 0.6):
+            for _ in range(rng.choice([1, 1, 1, 2])):
+                ty = clause_var_types(c, sig)
+                letdefs = set(v for v, _ in c.get("let", []))
+                for v in letdefs:
+                    ty.pop(v, None)
+                bb = bound_before(c)
+                q = rng.choices(lower, [(1, 8, 16)[min(len(sig[x]), 3) - 1] * (2 if x in layer_of else 1) for x in lower])[0]
+                a, shape, used = wild_neg_atom(rng, c, q, {"sig": sig[q], "ty": ty}, bb, scalar)
+                lo = min(j for j in range(len(bb)) if used <= bb[j])
+                n = len(c["body"])
+                x = rng.random()
+                slot = lo if x < 0.3 else (n if x < 0.5 else rng.randint(lo, n))
+                c["body"].insert(slot, ["neg", a])
+                cnt("new_atom")
+                cnt("shape:" + shape)
+                cnt("over:" + ("derived" if q in layer_of else "extensional"))
+                cnt("slot:" + ("first" if slot == 0 else ("last" if slot == n else "inner")))
+                cnt("wildcards_in_atom:%d" % sum(1 for t in a["args"] if t == ["wild"]))
+                if len(used) < sum(1 for t in a["args"] if t[0] == "var"):
+                    cnt("repeated_variable")
+                if any(p[0] == "atom" and layer_of.get(p[1]["p"]) == hl for p in c["body"]):
+                    cnt("in_recursive_clause")
+                if c.get("let"):
+                    cnt("in_clause_with_let")
+                touched = True
+        if touched:
+            cnt("clauses_changed")
+    if st:
+        prog["features"] = sorted(set(prog.get("features", [])) | {"neg", "neg-wild"})
+    return st
